@@ -41,6 +41,12 @@ structure St where
   stCur : List Byte := []
   stGot : Nat := 0
   stReady : Bool := false
+  -- receiver variant: 0 `mpt_stream_dispatch`, 1 the input object, 2 `mpt_stream_sync` with waiting commands
+  -- (ids still registered, messages logged, a message that is no reply stays in front for good)
+  stMode : Nat := 0
+  stLive : List Nat := []
+  stLogged : Nat := 0
+  stBlocked : Bool := false
   deriving Inhabited
 
 /-- bytes as text: `-` empty, hex up to 96 bytes, else `<len>:<adler32 parts>` -/
@@ -247,6 +253,19 @@ def streamPush (q : EncodeQueue) (data : Option (List Byte)) : Nat → Res (Enco
       else .ok (o.q, false)
     | .err e => .err e | .null => .null | .oob => .oob | .fault => .fault
 
+/-- replies handed to waiting commands: the id byte selects the command (used once), else the fallback `0` -/
+def waitLog : List Nat → List (List Byte) → Nat → List String → List Nat × Nat × List String × Bool
+  | live, [], k, acc => (live, k, acc, false)
+  | live, m :: ms, k, acc =>
+    match m with
+    | [] => (live, k, acc, true)
+    | b :: rest =>
+      if b.toNat < 128 then (live, k, acc, true) else
+      let id := b.toNat - 128
+      if live.contains id then waitLog (live.erase id) ms (k + 1) (acc ++ [s!"{id}:{showB rest}"])
+      else if live.contains 0 then waitLog live ms (k + 1) (acc ++ [s!"0:{showB rest}"])
+      else waitLog live ms (k + 1) acc
+
 def stLine (r : String) : String := s!"R {r} | C - | I - | S {r} ; *"
 
 /-- a C++ reader: advance while messages come; a refusal on a non-empty queue is answered with more storage -/
@@ -264,6 +283,13 @@ def xdrain (q : DecodeQueue) : Nat → Nat → List String → Res (DecodeQueue 
         | .err e => .err e | .null => .null | .oob => .oob | .fault => .fault
       else .ok (q1, ok, acc)
     | .err e => .err e | .null => .null | .oob => .oob | .fault => .fault
+
+def stNew (s : St) (name : String) (mode : Nat) : St × String :=
+  match Variant.ofName name with
+  | some v =>
+    ({ s with txq := { codec := some (.cobs v) }, txWire := [], moved := 0, loaded := 0, stSent := [], stCur := [], stGot := 0, stReady := true, stMode := mode, stLive := List.range 9, stLogged := 0, stBlocked := false },
+     stLine "ok")
+  | none => (s, "bad-op")
 
 def step (s : St) (w : List String) : St × String :=
   match w with
@@ -310,12 +336,9 @@ def step (s : St) (w : List String) : St × String :=
       let s' := { s with dq := q, got := s.got + msgs.length, avail := none }
       (s', s!"R msgs={txt} n={msgs.length} last={if ok then "0" else "refused"} guards=ok | C avail={msgText q} | I {dqI (if ok then "true" else "false") q} | S {alts}")
     | x => (s, dqLine s!"model-{resName x}" s.dq (resName x) alts)
-  | ["st", "new", name] =>
-    match Variant.ofName name with
-    | some v =>
-      ({ s with txq := { codec := some (.cobs v) }, txWire := [], moved := 0, loaded := 0, stSent := [], stCur := [], stGot := 0, stReady := true },
-       stLine "ok")
-    | none => (s, "bad-op")
+  | ["st", "new", name] => stNew s name 0
+  | ["st", "new", name, "input"] => stNew s name 1
+  | ["st", "new", name, "wait"] => stNew s name 2
   | ["st", "push", dat] =>
     if !s.stReady then (s, "bad-op") else
     match parseHex dat with
@@ -350,13 +373,27 @@ def step (s : St) (w : List String) : St × String :=
   | ["st", "dispatch"] =>
     if !s.stReady then (s, "bad-op") else
     -- every complete frame among the bytes moved so far has become a message, in order
+    if s.stMode = 2 then
+      -- the waiting side reads the descriptor itself
+      let k := frameCount (s.txWire.take s.moved)
+      let ms := if s.stBlocked then [] else (s.stSent.take k).drop s.stGot
+      let (live, used, logs, blocked) := waitLog s.stLive ms 0 []
+      let txt := if logs.isEmpty then "-" else ",".intercalate logs
+      ({ s with loaded := s.moved, stGot := s.stGot + used, stLive := live, stLogged := s.stLogged + logs.length, stBlocked := s.stBlocked || blocked },
+       stLine s!"msgs={txt} n={logs.length}")
+    else
     let k := frameCount (s.txWire.take s.loaded)
     let ms := (s.stSent.take k).drop s.stGot
     let txt := if ms.isEmpty then "-" else ",".intercalate (ms.map showB)
-    ({ s with stGot := s.stGot + ms.length }, stLine s!"msgs={txt} n={ms.length}")
+    ({ s with stGot := s.stGot + ms.length, stLogged := s.stLogged + ms.length }, stLine s!"msgs={txt} n={ms.length}")
+  | ["st", "skip"] =>
+    if !s.stReady then (s, "bad-op") else
+    -- dispatch without a handler drops the next complete message
+    let k := frameCount (s.txWire.take s.loaded)
+    ({ s with stGot := if s.stMode ≠ 2 ∧ s.stGot < min k s.stSent.length then s.stGot + 1 else s.stGot }, stLine "ok")
   | ["st", "sync"] =>
     if !s.stReady then (s, "bad-op") else
-    (s, s!"R sent={s.stSent.length} got={s.stGot} | C - | I - | S sent={s.stSent.length} got={s.stGot} ; *")
+    (s, s!"R sent={s.stSent.length} got={s.stLogged} | C - | I - | S sent={s.stSent.length} got={s.stLogged} ; *")
   | ["eq", "new", name, mx, off] =>
     match codecOf name, keyNat mx "max", keyNat off "off" with
     | some cv, some m, some o =>
@@ -384,6 +421,31 @@ def step (s : St) (w : List String) : St × String :=
                      sentMsgs := s.sentMsgs ++ [s.cur.map Prod.fst] },
             eqLine "ok" o.q o.q.st.done (errName o.ret) alts)
     | x => (s, eqLine s!"model-{resName x}" s.eq s.fdone (resName x) alts)
+  | ["eq", "del", n] =>
+    if !s.eqReady then (s, "bad-op") else
+    match n.toNat? with
+    | some k =>
+      if k = 0 ∨ k > 64 then (s, "bad-op") else
+      -- the message in progress counts as the first one; finished frames still in the queue can follow
+      let frames := (splitFrames s.fin).1
+      let need := if s.cur.isEmpty then k else k - 1
+      let keep := (frames.take (frames.length - need)).flatten
+      let spec := s.variant.isSome ∧ s.early = 0
+      let alts :=
+        if !spec then "* ; *"
+        else if need ≤ frames.length then s!"ok ; fin={showB keep}"
+        else s!"refused ; fin={showB s.fin}"
+      match queueDel s.eq k with
+      | .ok o =>
+        if o.ret < 0 then ({ s with eq := o.q }, eqLine "refused" o.q s.fdone (errName o.ret) alts)
+        else
+          let fd := min s.fdone o.q.st.done
+          let gone := if s.eq.codec.isSome then ((s.eq.ring.content.take (min s.fdone s.eq.ring.len)).count 0) - ((o.q.ring.content.take (min fd o.q.ring.len)).count 0) else 0
+          ({ s with eq := o.q, pending := [], cur := [], early := 0, fdone := fd, sent := s.sent - gone,
+                    fin := if spec then keep else s.fin.take fd, sentMsgs := s.sentMsgs.take (s.sentMsgs.length - gone) },
+           eqLine "ok" o.q fd (errName o.ret) alts)
+      | x => (s, eqLine s!"model-{resName x}" s.eq s.fdone (resName x) alts)
+    | none => (s, "bad-op")
   | ["eq", "grow", n] =>
     if !s.eqReady then (s, "bad-op") else
     match n.toNat? with
